@@ -209,8 +209,73 @@ class CallMixin:
         return f"(k_{kind} {t})"
 
     # ------------------------------------------------------------ calls
+    def extend_reading_itself(self, st, n):
+        """`xs.extend(e for ... if c and e not in xs)`: CPython appends while the generator runs, so the membership test sees the
+        members appended so far.  Evaluating the generator first (as every other generator argument is) would test against the
+        old list only.  The idiom is modelled by what it guarantees -- the old list is a prefix, every new member is one of the
+        candidates (the generator without the membership test), every candidate is == some member of the result -- and any other
+        way of reading the list inside the generator leaves the subset."""
+        recv = n.func.value.id
+        gen = n.args[0]
+        if len(gen.generators) != 1:
+            raise OutOfSubset("generator passed to extend reads the list being extended", n)
+        g = gen.generators[0]
+        elt_dump = ast.dump(gen.elt)
+        conj = []
+        for c in g.ifs:
+            conj.extend(c.values if isinstance(c, ast.BoolOp) and isinstance(c.op, ast.And) else [c])
+        rest, hit = [], 0
+        for c in conj:
+            if isinstance(c, ast.Compare) and len(c.ops) == 1 and isinstance(c.ops[0], ast.NotIn) and isinstance(c.comparators[0], ast.Name) \
+                    and c.comparators[0].id == recv and ast.dump(c.left) == elt_dump:
+                hit += 1
+            else:
+                rest.append(c)
+        reads = [x for c in rest + [gen.elt, g.iter] for x in ast.walk(c) if isinstance(x, ast.Name) and x.id == recv]
+        if hit != 1 or reads:
+            raise OutOfSubset("generator passed to extend reads the list being extended", n)
+        g2 = ast.comprehension(target=g.target, iter=g.iter, ifs=([ast.BoolOp(op=ast.And(), values=rest)] if len(rest) > 1 else rest), is_async=0)
+        cand_node = ast.copy_location(ast.ListComp(elt=gen.elt, generators=[g2]), gen)
+        ast.fix_missing_locations(cand_node)
+        out = []
+        for s, cand in self.ev(st, cand_node):
+            if is_exc(cand):
+                out.append((s, cand))
+                continue
+            for s2, cur in self.ev(s, n.func.value):
+                if is_exc(cur):
+                    out.append((s2, cur))
+                    continue
+                lr, lc = self.lift(cur), self.lift(cand)
+                if lr.kind != "list" or lc.kind != "list":
+                    raise OutOfSubset("extend of a non-list", n)
+                self.frame_write(s2, lr, lr.origin or recv, n)
+                R0, C = f"(lval {asV(lr)})", f"(lval {asV(lc)})"
+                r = self.fresh_val("dext", kind="list")
+                r.fresh, r.origin = lr.fresh, lr.origin
+                R1 = f"(lval {r.t})"
+                i, pq = fresh_name("di"), fresh_name("dp")
+                src = self.declare_fun(fresh_name("dsrc"), ["Int"], "Int")
+                pos = self.declare_fun(fresh_name("dpos"), ["Int"], "Int")
+                s2.assume(f"(k_list {r.t})")
+                s2.assume(f"(<= (seq.len {R0}) (seq.len {R1}))")
+                s2.assume(f"(<= (seq.len {R1}) (+ (seq.len {R0}) (seq.len {C})))")
+                s2.assume(f"(forall (({i} Int)) (! (=> (and (<= 0 {i}) (< {i} (seq.len {R0}))) (= (seq.nth {R1} {i}) (seq.nth {R0} {i}))) :pattern ((seq.nth {R1} {i})) :pattern ((seq.nth {R0} {i}))))")
+                s2.assume(f"(forall (({i} Int)) (! (=> (and (<= (seq.len {R0}) {i}) (< {i} (seq.len {R1}))) (and (<= 0 ({src} {i})) (< ({src} {i}) (seq.len {C})) "
+                          f"(= (seq.nth {R1} {i}) (seq.nth {C} ({src} {i}))))) :pattern ((seq.nth {R1} {i}))))")
+                s2.assume(f"(forall (({pq} Int)) (! (=> (and (<= 0 {pq}) (< {pq} (seq.len {C}))) (and (<= 0 ({pos} {pq})) (< ({pos} {pq}) (seq.len {R1})) "
+                          f"(or (= (seq.nth {R1} ({pos} {pq})) (seq.nth {C} {pq})) (py_eq (seq.nth {R1} ({pos} {pq})) (seq.nth {C} {pq}))))) :pattern ((seq.nth {C} {pq})) :pattern (({pos} {pq}))))")
+                self.trusted_used.add("xs.extend(e for ... if ... and e not in xs): the old list is a prefix of the result, every appended member is one of the "
+                                      "candidates, every candidate is identical or == to a member of the result (CPython appends while the generator runs)")
+                for s3, _ in self.store_back(s2, n.func.value, r, n):
+                    out.append((s3, PyC(None)))
+        return out
+
     def e_Call(self, st, n):
         out = []
+        if isinstance(n.func, ast.Attribute) and n.func.attr == "extend" and len(n.args) == 1 and not n.keywords and isinstance(n.args[0], ast.GeneratorExp) \
+                and isinstance(n.func.value, ast.Name) and any(isinstance(x, ast.Name) and x.id == n.func.value.id for x in ast.walk(n.args[0])):
+            return self.extend_reading_itself(st, n)
         if isinstance(n.func, ast.Attribute) and n.func.attr in ("items", "values", "keys", "get") :
             # x.items() / x.get(k) on a value of statically unknown class: a mapping method (obligation: x is a mapping)
             res = []
